@@ -22,14 +22,14 @@ def KF_C04_world_empty_view(div):
 
 def KF_C04_scalar_view_selections(div):
     """All-integer views (scalar result) of selections built on categorical attributes or projected 3-d regions:
-    CategoricalROISubsetState / CategoricalROISubsetState2D / CategoricalMultiRangeSubsetState / RoiSubsetState3d raise,
+    CategoricalROISubsetState / CategoricalROISubsetState2D / CategoricalMultiRangeSubsetState raise,
     CategorySubsetState returns False for a selected element."""
     b = div.behaviour
     if b.get('spec') != 'Views':
         return False
     if b['exp']['rshape'] != [] or b['cfg']['kind'] != 'tuple':
         return False
-    return div.component in ('mask[catroi]', 'mask[roi3d]', 'mask[catmultirange]', 'mask[catroi2d]', 'mask[category]')
+    return div.component in ('mask[catroi]', 'mask[catmultirange]', 'mask[catroi2d]', 'mask[category]')
 
 
 def _memo_ops(div):
@@ -95,4 +95,4 @@ def KF_C18_empty_image_viewer_restore(div):
             and isinstance(div.actual, str) and 'is not in valid choices: []' in div.actual):
         return False
     st = b['steps'][div.step]['st']
-    return not [d for d in st['given'] if d in st['coll']]
+    return not st['layers']
